@@ -24,7 +24,7 @@ prop = Prop(
 )
 prop.engine = "detloop"
 
-ALL_OPS = ("map", "zip", "scatter", "gather", "cond", "loop", "exec", "cross")
+ALL_OPS = ("map", "zip", "scatter", "gather", "cond", "loop", "exec", "cross", "shuffle", "join")
 case_strategy = st.fixed_dictionaries(
     {"prog": progs.program_strategy(ops=ALL_OPS), "schedule": progs.schedule_strategy, "durations": progs.durations_strategy}
 )
